@@ -105,6 +105,7 @@ fn parse_levels(s: &str) -> Vec<Level> {
                 flaky: false,
                 after_fail: false,
                 pairs: false,
+                reconsider: false,
             };
             let cs: Vec<char> = l.chars().collect();
             let mut i = 0;
@@ -124,6 +125,7 @@ fn parse_levels(s: &str) -> Vec<Level> {
                     'k' => lv.flaky = true,
                     'x' => lv.after_fail = true,
                     't' => lv.pairs = true,
+                    'c' => lv.reconsider = true,
                     '-' => {}
                     x => panic!("bad level letter {}", x),
                 }
